@@ -413,6 +413,9 @@ def run(ctx):
     ns = 16
     for fam in ('no-rules', 'rules', 'examples-shapes', 'pairs'):
         ctx.level('compiler shapes:' + fam, [A.job_shapes.job(__name__, fam, s, ns, ctx.quick) for s in range(ns)])
+    from .. import docspace as DS
+    mc = ctx.pick(250, 1500)
+    ctx.level('single edits of corpus and base documents <= %d characters via parser' % mc, [A.job_edits.job(__name__, mc, bi) for bi in range(len(DS.edit_bases(mc)))])
     from .c17 import job_script_multi
     ctx.level('generate_events script over several paths is one stream (ids continue)', [job_script_multi.job(f) for f in ([], ['--no-source'])])
     ctx.level('two sources drawn alternately: all interleavings of next()', [job_generators.job(i) for i in range(len(POOL))])
